@@ -2,8 +2,9 @@
 """seeded.py verify <prop> <A|B>   confirm, in the sub-agent's scratch worktree /tmp/wt_<prop>, that the change
                                     compiles, passes the existing suite, and that the demo fails with / passes without it;
                                     then store it under /verif/seeded/<prop>-<X>/
-   seeded.py detect <dir> [checks...]  apply /verif/seeded/<dir>/patch.diff to /repo, run the checks, undo it."""
+   seeded.py detect <dir> [checks...]  apply /verif/seeded/<dir>/patch.diff to a scratch copy of /repo (never to /repo) and run the checks on it."""
 import subprocess, sys, json, os, shutil, time
+sys.path.insert(0, os.path.dirname(os.path.abspath(__file__)))
 
 def sh(cmd, cwd=None, timeout=3000):
     r = subprocess.run(cmd, shell=True, capture_output=True, text=True, cwd=cwd, timeout=timeout)
@@ -58,21 +59,24 @@ def verify(prop, x, wave=""):
     return res
 
 def detect(d, checks):
+    """never touches /repo: the change goes into a scratch copy, which ./check then decides (scratch.py)"""
+    import scratch
     patch = f"/verif/seeded/{d}/patch.diff"
-    rc, out = sh("git status --porcelain", cwd="/repo")
-    assert out.strip() == "", "/repo not clean"
-    rc, out = sh(f"git apply {patch}", cwd="/repo")
-    assert rc == 0, out
     row = {"seeded": d}
-    try:
-        for c in checks:
-            t0 = time.time()
-            rc, out = sh(f"/verif/check {c}")
-            v = [l for l in out.splitlines() if l.startswith("violation") or l.startswith("HARNESS") or l.startswith("  ")]
-            row[c] = {"exit": rc, "s": round(time.time() - t0), "first": " | ".join(x.strip()[:300] for x in v[:2])}
-    finally:
-        sh("git checkout -- .", cwd="/repo")
-        sh("rm -rf /verif/replays")
+    with scratch.copy_of_repo() as (repo, env):
+        # plain patch(1)-style application: the copy has no git metadata
+        rc, out = sh(f"git apply --unsafe-paths --directory={repo} {patch}", cwd="/")
+        assert rc == 0, out
+        try:
+            for c in checks:
+                t0 = time.time()
+                r = subprocess.run(f"/verif/check {c}", shell=True, capture_output=True, text=True, env=env, timeout=6000)
+                out = r.stdout + r.stderr
+                assert "SCRATCH: deciding" in out, out[:500]
+                v = [l for l in out.splitlines() if l.startswith("violation") or l.startswith("HARNESS") or l.startswith("  ")]
+                row[c] = {"exit": r.returncode, "s": round(time.time() - t0), "first": " | ".join(x.strip()[:300] for x in v[:2])}
+        finally:
+            sh("rm -rf /verif/replays")
     print(json.dumps(row, indent=1))
     return row
 
